@@ -33,6 +33,105 @@ LIMIT = 5000
 RED = {"count": "RCount", "sum": "RSum", "min": "RMin", "max": "RMax", "avg": "RAvg",
        "collect": "RCollect", "collect_distinct": "RCollectDistinct"}
 F64 = "/__f64"
+BYT = "/__bytes"
+
+
+# ------------------------------------------------------------------ float and byte-string constants
+# The model has names, strings, int64 numbers, pairs and lists. A float64 or a byte string that is only
+# grouped, collected and compared for equality is carried through the model as an opaque tagged pair
+#   float m * 2^e (m odd, or m = e = 0):  ["pair", ["name", "/__f64"], ["pair", ["n", m], ["n", e]]]
+#   byte string (ASCII):                  ["pair", ["name", "/__bytes"], ["s", text]]
+# (the form avg results already had); the program text gets the literal, the harness reports ["f", m, e] /
+# ["b", text] and conv_const maps them back. No generated program uses the two tag names otherwise.
+def flt(x):
+    """Tagged pair of the python float x (finite)."""
+    import math
+    if x == 0:
+        return ["pair", ["name", F64], ["pair", ["n", 0], ["n", 0]]]
+    frac, exp = math.frexp(x)
+    m, e = int(frac * (1 << 53)), exp - 53
+    while m % 2 == 0:
+        m //= 2
+        e += 1
+    return ["pair", ["name", F64], ["pair", ["n", m], ["n", e]]]
+
+
+def byt(txt):
+    return ["pair", ["name", BYT], ["s", txt]]
+
+
+def is_flt(c):
+    return c[0] == "pair" and c[1] == ["name", F64] and c[2][0] == "pair"
+
+
+def is_byt(c):
+    return c[0] == "pair" and c[1] == ["name", BYT] and c[2][0] == "s"
+
+
+def flt_value(c):
+    return float(c[2][1][1]) * 2.0 ** c[2][2][1]
+
+
+def ctext(c):
+    """dc.const_text extended by float and byte-string literals."""
+    k = c[0]
+    if is_flt(c):
+        t = repr(flt_value(c))
+        if "e" in t or "n" in t:
+            raise ValueError("float without a plain literal: %r" % (c,))
+        return t
+    if is_byt(c):
+        return 'b"%s"' % dc.esc(c[2][1])
+    if k == "pair":
+        return "fn:pair(%s, %s)" % (ctext(c[1]), ctext(c[2]))
+    if k == "list":
+        items = [ctext(x) for x in c[1]]
+        if items and items[0].startswith("-"):
+            return "fn:list(%s)" % ", ".join(items)
+        return "[%s]" % ", ".join(items)
+    return dc.const_text(c)
+
+
+def fact_text(f):
+    return "%s(%s)." % (dc.pred_name(f["p"]), ", ".join(ctext(c) for c in f["args"]))
+
+
+def chash(c):
+    """ast.Constant.Hash() (dc.const_hash extended): a float hashes to its bit pattern, a byte string like
+    the string with the same content."""
+    import struct
+    k = c[0]
+    if is_flt(c):
+        return struct.unpack("<Q", struct.pack("<d", flt_value(c)))[0]
+    if is_byt(c):
+        return dc.fnv1_64(c[2][1].encode("utf-8"))
+    if k == "pair":
+        return dc.szudzik((chash(c[1]) << 7) & dc.M64, chash(c[2]))
+    if k == "list":
+        h = 0
+        for x in reversed(c[1]):
+            h = dc.szudzik((chash(x) << 8) & dc.M64, h)
+        return h
+    return dc.const_hash(c)
+
+
+def fact_hash(pname, args):
+    h = dc.fnv1_64(pname.encode())
+    for c in args:
+        h = dc.fnv1_64(chash(c).to_bytes(8, "little"), h)
+    return h
+
+
+def hash_collisions(named_facts):
+    """Pairs of distinct facts (predicate name, args) with equal ast.Atom.Hash(): the trigger of F8."""
+    seen, out = {}, []
+    for nm, args in named_facts:
+        t = "%s(%s)" % (nm, ", ".join(ctext(c) for c in args))
+        h = fact_hash(nm, args)
+        if h in seen and seen[h] != t:
+            out.append((seen[h], t))
+        seen.setdefault(h, t)
+    return out
 
 
 # ------------------------------------------------------------------ names <-> ids
@@ -78,7 +177,7 @@ def rule_text(c):
 
 
 def to_mangle(prog, shuffle_rng=None):
-    lines = [dc.fact_text(f) for f in prog.get("init", [])] + [rule_text(c) for c in prog["clauses"]]
+    lines = [fact_text(f) for f in prog.get("init", [])] + [rule_text(c) for c in prog["clauses"]]
     if shuffle_rng is not None:
         # the relative order of the rules of one head is kept (it fixes the counter values;
         # not observable, but keeps replays stable); facts and other lines move freely
@@ -161,6 +260,8 @@ def conv_const(c):
         return ["pair", conv_const(c[1]), conv_const(c[2])]
     if k == "list":
         return ["list", [conv_const(x) for x in c[1]]]
+    if k == "b":
+        return byt(c[1])
     if k == "f":
         if c[1] == "nan":
             return ["pair", ["name", F64], ["name", "/nan"]]
@@ -225,13 +326,13 @@ def show_facts(ck, expr):
     kind, facts = dc.parse_model_tokens(toks)
     if kind != "ok":
         return kind
-    return sorted("%s(%s)" % (id_name(f["p"]), ", ".join(dc.const_text(c) for c in f["args"])) for f in facts)
+    return sorted("%s(%s)" % (id_name(f["p"]), ", ".join(ctext(c) for c in f["args"])) for f in facts)
 
 
 def canon_go(group):
     if group["err"]:
         return None
-    return sorted("%s(%s)" % (dc.pred_name(f["p"]), ", ".join(dc.const_text(c) for c in f["args"]))
+    return sorted("%s(%s)" % (dc.pred_name(f["p"]), ", ".join(ctext(c) for c in f["args"]))
                   for f in facts_from_go(group["facts"]))
 
 
@@ -559,6 +660,258 @@ def gen_program(rng, big=False):
         if any(c.get("do") for c in p["clauses"]):
             return p
     return p
+
+
+# ------------------------------------------------------------------ confusable constants (strengthened after seeding)
+# One aggregating rule = group by the key TUPLE OF CONSTANTS and reduce; Go groups by a printed key string
+# (groupKeyString) and de-duplicates collected values through Constant.Hash() buckets. The families below put
+# into one key / collected column constants that differ but (a) print alike across types, (b) contain the
+# separators of the key encoding, (c) have equal Hash(). Facts stay hash-distinct (F8 is about hash-equal
+# FACTS): every base fact carries a unique tag and every head a column that differs between groups.
+P32, P33 = 1 << 32, 1 << 33
+CONF_FAMILIES = {
+    # same text, different constant types
+    "type-7": [dc.num(7), dc.string("7"), byt("7"), flt(7.0), dc.string("7.0"), dc.name("/7"), dc.string("/7")],
+    "type-a": [dc.name("/a"), dc.string("/a"), byt("/a"), dc.string("a"), byt("a"), dc.string('"a"'),
+               dc.string('b"a"'), dc.string('\\"a\\"')],
+    # the key encoding "<len>:<printed>|" and the quoting of strings
+    "delim": [dc.string("a"), dc.string("a|1:b"), dc.string("b"), dc.string("|"), dc.string("1:"), dc.string("a|"),
+              dc.string('a"|3:"b'), dc.string('3:"a"|'), dc.string(""), dc.string("a\\"), dc.string("a\n")],
+    # Hash() = 0
+    "hash-0": [dc.num(0), flt(0.0), dc.lst([]), dc.lst([dc.num(0)]), dc.pair(dc.num(0), dc.num(0)),
+               dc.pair(dc.num(0), dc.num(P32)), dc.lst([dc.num(0), dc.num(0)]), dc.pair(dc.num(0), dc.num(P33))],
+    # Hash() = 2^32 and the bit pattern of 1.5
+    "hash-n": [dc.num(P32), dc.pair(dc.num(1 << 25), dc.num(0)), dc.pair(dc.num(0), dc.num(1 << 16)),
+               flt(1.5), dc.num(4609434218613702656), dc.num(1)],
+    # fnv of the text: a name, a string and a byte string with one content
+    "hash-a": [dc.name("/a"), dc.string("/a"), byt("/a"), dc.name("/b"), dc.string("/b")],
+    # numbers whose 2-tuples collide under the wrapping pairing function: (0,0) (0,2^32) (0,2^33)
+    "tuple-0": [dc.num(0), dc.num(0), dc.num(P32), dc.num(P33), dc.num(1)],
+    "zero": [dc.num(0), dc.num(0), dc.num(0), dc.num(1)],
+}
+CONF_PAIRS = [("type-7", "type-a"), ("type-a", "type-7"), ("type-7", "hash-0"), ("type-a", "hash-a"),
+              ("delim", "delim"), ("delim", "type-a"), ("hash-0", "hash-0"), ("hash-n", "hash-0"),
+              ("hash-a", "hash-n"), ("zero", "tuple-0"), ("zero", "tuple-0"), ("type-7", "tuple-0"),
+              ("hash-0", "type-7"), ("hash-a", "type-a")]
+
+
+def conf_program(rng):
+    """p0(A, B, T, N): A, B from two families, T a unique tag, N a distinct power of two; p1(T) a subset of
+    the tags. 1-3 aggregating rules group by A / B / (A,B) / (B,A) / nothing and collect A, B, (A,B), (B,N)."""
+    r = rng
+    fa, fb = r.choice(CONF_PAIRS)
+    A, B = CONF_FAMILIES[fa], CONF_FAMILIES[fb]
+    nf = r.randint(6, 12)
+    sa = r.sample(A, min(len(A), r.randint(2, 4)))
+    sb = r.sample(B, min(len(B), r.randint(2, 4)))
+    init, tags = [], []
+    for i in range(nf):
+        t = dc.name("/t%d" % i)
+        tags.append(t)
+        init.append(dc.fact(0, copy.deepcopy(r.choice(sa)), copy.deepcopy(r.choice(sb)), t, dc.num(1 << i)))
+    init += [dc.fact(1, t) for t in tags if r.random() < 0.75] or [dc.fact(1, tags[0])]
+    va, vb, vt, vn = 1, 2, 3, 4
+    clauses, layers, feats = [], [], {"confusable", "fam-" + fa, "fam-" + fb}
+    nextp = 2
+    prev = None
+    for _ in range(r.choice([1, 2, 2, 3])):
+        keys = r.choice([[va], [va], [vb], [va, vb], [vb, va], []])
+        x = r.random()
+        if x < 0.45:
+            shape = "single"
+            # unused positions may be wildcards: a single-atom body has one row per fact
+            body = [["atom", dc.atom(0, V(va), V(vb), V(vt), V(vn))]]
+        elif x < 0.75:
+            shape = "multi-join"
+            body = [["atom", dc.atom(0, V(va), V(vb), V(vt), V(vn))], ["atom", dc.atom(1, V(vt))]]
+        else:
+            shape = "multi-cmp"
+            body = [["atom", dc.atom(0, V(va), V(vb), V(vt), V(vn))],
+                    ["cmp", r.choice(["lt", "ge"]), V(vn), N(1 << r.randint(1, nf - 1))]]
+        feats.add("conf-" + shape)
+        nv = [10]
+
+        def fresh():
+            nv[0] += 1
+            return nv[0]
+        # the discriminating column: differs between the (disjoint) groups of this rule
+        v = fresh()
+        disc = r.choice([["reduce", v, "sum", [V(vn)]], ["reduce", v, "min", [V(vn)]],
+                         ["reduce", v, "max", [V(vn)]], ["reduce", v, "collect", [V(vt)]]])
+        stmts, hvars = [disc], [v]
+        for _c in range(r.choice([0, 1, 1, 2])):
+            v = fresh()
+            y = r.random()
+            if y < 0.2:
+                stmts.append(["reduce", v, "count", []])
+            else:
+                kind = "collect_distinct" if y < 0.85 else "collect"
+                args = r.choice([[V(vb)], [V(va)], [V(va), V(vb)], [V(vb), V(va)], [V(vb), V(vn)], [V(va), V(vb), V(va)]])
+                stmts.append(["reduce", v, kind, args])
+                feats.add("conf-" + kind)
+            hvars.append(v)
+        used = set(keys)
+        for st in stmts:
+            for t in st[3]:
+                used.add(t[1])
+        if shape == "single":
+            a = body[0][1]["args"]
+            for i, var_ in enumerate([va, vb, vt, vn]):
+                if var_ not in used and r.random() < 0.7:
+                    a[i] = ["wild"]
+        sigk = (len(keys), tuple(st[2] for st in stmts))
+        if prev and prev[1] == sigk and r.random() < 0.4:
+            head = prev[0]
+            feats.add("conf-same-head")
+        else:
+            head = nextp
+            nextp += 1
+            layers.append([head])
+        prev = (head, sigk)
+        if len(keys) >= 1:
+            feats.add("conf-keyed")
+        clauses.append(agg(head, [V(k) for k in keys] + [V(h) for h in hvars], body, list(keys), stmts))
+    return {"clauses": clauses, "layers": layers, "init": init, "pre": [], "features": sorted(feats)}
+
+
+def gen_conf_program(rng):
+    """conf_program whose base facts are pairwise hash-distinct (they are, by the tag; checked anyway)."""
+    for _ in range(20):
+        p = conf_program(rng)
+        if not hash_collisions([(dc.pred_name(f["p"]), f["args"]) for f in p["init"]]):
+            return p
+    return p
+
+
+# ------------------------------------------------------------------ recursion through an aggregate (strengthened after seeding)
+def cyc_program(rng):
+    """A program whose dependency graph has a cycle through an aggregation edge: cycle predicates
+    p1..pL (all (K, V)), p_i depends on p_(i+1), p_L on p1; one or two of these edges come from a
+    do-transform rule, the others from plain rules (copy, arithmetic, join, let-transform). Around it:
+    base facts p0, optional base rules, a side path inside the component, a lawful aggregate below and a
+    reader above. Such a program has to be refused on every run (Props/C02.v agg_cycle_not_stratifiable)."""
+    r = rng
+    K, Vv, S, W = 1, 2, 3, 4
+    L = 1 if r.random() < 0.06 else r.choice([2, 2, 2, 3, 3, 4])
+    cyc = list(range(1, L + 1))
+    nextp = L + 1
+    feats = {"agg-cycle", "cycle-len-%d" % L}
+    init = []
+    seen = set()
+    for _ in range(r.randint(3, 7)):
+        f = dc.fact(0, dc.num(r.choice([1, 2, 3])), dc.num(r.choice([1, 2, 3, 4, 5, 7])))
+        if fact_text(f) not in seen:
+            seen.add(fact_text(f))
+            init.append(f)
+    nagg = 1 if L < 3 or r.random() < 0.75 else 2
+    agg_at = set(r.sample(range(L), nagg))
+    clauses = []
+
+    def agg_edge(h, b):
+        x = r.random()
+        body = [["atom", dc.atom(b, V(K), V(Vv))]]
+        if x < 0.35:
+            body.append(["atom", dc.atom(0, V(K), ["wild"])])
+            feats.add("cyc-agg-multi")
+        elif x < 0.5:
+            body.append(["cmp", "lt", V(Vv), N(1000)])
+            feats.add("cyc-agg-multi")
+        else:
+            feats.add("cyc-agg-single")
+        red = r.choice([["reduce", S, "count", []], ["reduce", S, "sum", [V(Vv)]], ["reduce", S, "max", [V(Vv)]],
+                        ["reduce", S, "min", [V(Vv)]]])
+        if r.random() < 0.25:
+            # no key: head (S, C)
+            return agg(h, [V(S), V(W)], body, [], [red, ["reduce", W, "count", []]])
+        return agg(h, [V(K), V(S)], body, [K], [red])
+
+    def plain_edge(h, b):
+        x = r.random()
+        if x < 0.3:
+            return dc.clause(dc.atom(h, V(K), V(Vv)), [["atom", dc.atom(b, V(K), V(Vv))]])
+        if x < 0.55:
+            return dc.clause(dc.atom(h, V(K), V(W)), [["atom", dc.atom(b, V(K), V(Vv))],
+                                                       ["eq", V(W), dc.app("plus", V(Vv), N(r.choice([1, 100])))]])
+        if x < 0.75:
+            return dc.clause(dc.atom(h, V(K), V(Vv)), [["atom", dc.atom(b, V(K), V(Vv))], ["atom", dc.atom(0, V(K), ["wild"])]])
+        if x < 0.9:
+            feats.add("cyc-let")
+            return dc.clause(dc.atom(h, V(K), V(W)), [["atom", dc.atom(b, V(K), V(Vv))]],
+                             let=[(W, dc.app("plus", V(Vv), N(1)))])
+        return dc.clause(dc.atom(h, V(Vv), V(K)), [["atom", dc.atom(b, V(K), V(Vv))]])
+
+    for i in range(L):
+        h, b = cyc[i], cyc[(i + 1) % L]
+        clauses.append(agg_edge(h, b) if i in agg_at else plain_edge(h, b))
+    # base rules: the predicates an aggregate reads get facts, the others sometimes
+    for i in range(L):
+        reads = ((i - 1) % L) in agg_at
+        if (reads and L > 1) or r.random() < 0.4:
+            if not (i in agg_at and L == 1):
+                clauses.append(dc.clause(dc.atom(cyc[i], V(K), V(Vv)), [["atom", dc.atom(0, V(K), V(Vv))]]))
+    if L == 1:
+        clauses.append(dc.clause(dc.atom(cyc[0], V(K), V(Vv)), [["atom", dc.atom(0, V(K), V(Vv))]]))
+    if L >= 2 and r.random() < 0.4:
+        # a side path parallel to one edge of the cycle
+        i = r.randrange(L)
+        sp = nextp
+        nextp += 1
+        clauses.append(dc.clause(dc.atom(sp, V(K), V(Vv)), [["atom", dc.atom(cyc[(i + 1) % L], V(K), V(Vv))]]))
+        clauses.append(dc.clause(dc.atom(cyc[i], V(K), V(Vv)), [["atom", dc.atom(sp, V(K), V(Vv))]]))
+        feats.add("cyc-side-path")
+    if r.random() < 0.5:
+        z = nextp
+        nextp += 1
+        clauses.append(agg(z, [V(K), V(S)], [["atom", dc.atom(0, V(K), V(Vv))]], [K], [["reduce", S, "sum", [V(Vv)]]]))
+        feats.add("cyc-lawful-agg")
+        if r.random() < 0.5:
+            clauses.append(dc.clause(dc.atom(r.choice(cyc), V(K), V(Vv)), [["atom", dc.atom(z, V(K), V(Vv))]]))
+            feats.add("cyc-reads-lawful-agg")
+    if r.random() < 0.5:
+        t = nextp
+        nextp += 1
+        clauses.append(dc.clause(dc.atom(t, V(K)), [["atom", dc.atom(r.choice(cyc), V(K), ["wild"])]]))
+        feats.add("cyc-reader-above")
+    r.shuffle(clauses)
+    return {"clauses": clauses, "layers": [], "init": init, "pre": [], "features": sorted(feats)}
+
+
+def cyc_witness_programs():
+    K, Vv, S = 1, 2, 3
+    cnt_q = {"clauses": [dc.clause(dc.atom(2, V(1)), [["atom", dc.atom(0, V(1))]]),
+                         dc.clause(dc.atom(2, V(2)), [["atom", dc.atom(1, V(1))], ["eq", V(2), dc.app("plus", V(1), N(100))]]),
+                         agg(1, [V(1)], [["atom", dc.atom(2, V(2))]], [], [["reduce", 1, "count", []]])],
+             "layers": [], "init": [dc.fact(0, dc.num(1)), dc.fact(0, dc.num(2))], "pre": [],
+             "features": ["agg-cycle", "cyc-witness"]}
+    # total -> reach -> seed -> total with a multi-atom aggregating body
+    longer = {"clauses": [dc.clause(dc.atom(2, V(1)), [["atom", dc.atom(1, V(1))]]),
+                          dc.clause(dc.atom(2, V(1)), [["atom", dc.atom(4, ["wild"], V(2))], ["atom", dc.atom(0, V(2), V(1))]]),
+                          dc.clause(dc.atom(3, V(1), V(1)), [["atom", dc.atom(2, V(1))]]),
+                          dc.clause(dc.atom(3, V(1), V(3)), [["atom", dc.atom(3, V(1), V(2))], ["atom", dc.atom(0, V(2), V(3))]]),
+                          agg(4, [V(1), V(3)], [["atom", dc.atom(3, V(1), V(2))], ["atom", dc.atom(0, ["wild"], V(2))]], [1],
+                              [["reduce", 3, "count", []]])],
+              "layers": [], "init": [dc.fact(0, dc.num(1), dc.num(2)), dc.fact(0, dc.num(2), dc.num(3)), dc.fact(1, dc.num(1))],
+              "pre": [], "features": ["agg-cycle", "cyc-witness"]}
+    return [cnt_q, longer]
+
+
+def cq_cyc(prog, out):
+    """(case, number of evaluated runs) for Run.C02.judge_cyc; the case carries one store such a run left."""
+    sample = None
+    for oc in out.get("outcomes", []):
+        if oc["err"] == "":
+            sample = oc
+            break
+    if sample is not None:
+        try:
+            obs = C("OFacts", [cq_fact(f) for f in facts_from_go(sample["facts"])])
+        except ValueError:
+            obs = Raw("OLimit")
+    else:
+        obs = Raw("OLimit")
+    case = C("mkCase", [cq_rule(c) for c in prog["clauses"]], [], [], [cq_fact(f) for f in prog.get("init", [])],
+             FUEL, [tuple(x) for x in sort_cols(prog)], obs)
+    return coq((case, out["accepted"] + out["other_err"]))
 
 
 # ------------------------------------------------------------------ fixed witnesses
